@@ -90,6 +90,17 @@ def leaf_wrappers(forest, text, chain=()):
     return None
 
 
+def exact_leaf_wrappers(forest, text, chain=()):
+    for n in forest:
+        if "name" in n:
+            r = exact_leaf_wrappers(n["children"], text, chain + ((n["name"], n["attrs"].get("class")),))
+            if r is not None:
+                return r
+        elif n.get("text", "") == text:
+            return sorted([c for c in chain if c[0] not in BLOCKS], key=repr)
+    return None
+
+
 def rand_props(rng):
     p = {}
     for _, name in TOGGLES:
@@ -131,6 +142,14 @@ def run(ctx):
         for pair in ([a_, b_], [b_, a_], [a_, b_, dict(a_)]):
             forced.add(len(docs))
             docs.append(pair)
+    # a run WITHOUT the formatting of its two equal neighbours, holding only white space: the gap between them belongs to neither
+    gaps = {}
+    for name, on, off in single[:9]:
+        a_ = {name: on}
+        mid = {name: off} if off not in (None, "absent") else {}
+        forced.add(len(docs))
+        gaps[len(docs)] = rng.choice([" ", "\t", "\u00a0", "  "])
+        docs.append([a_, mid, dict(a_)])
     terms, metas = [], []
     dist = {"documents": 0, "runs": 0, "runs_with_formatting": 0, "neighbours_equal": 0, "override_sets": {}}
     for i, runs in enumerate(docs):
@@ -140,7 +159,7 @@ def run(ctx):
         dist["override_sets"][key] = dist["override_sets"].get(key, 0) + 1
         table = OVERRIDES2 if i % 3 == 2 else OVERRIDES
         sm = "\n".join(table[k] for k in overrides) or None
-        xml_runs = [make_run(rng, p, "run%dx%d" % (i, j)) for j, p in enumerate(runs)]
+        xml_runs = [make_run(rng, p, gaps[i] if (i in gaps and j == 1) else "run%dx%d" % (i, j)) for j, p in enumerate(runs)]
         pkg = gen_xml.Package()
         pkg.body = [X("w:p", {}, xml_runs)]
         opts = {"style_map": sm, "include_default_style_map": True, "include_embedded_style_map": True,
@@ -167,6 +186,9 @@ def run(ctx):
             for j, p in enumerate(runs):
                 exp = expected_wrappers(p, overrides, table)
                 got = leaf_wrappers(forest, "run%dx%d" % (i, j))
+                if i in gaps and j == 1:
+                    # the white-space run: a text node of its own, under its OWN wrappers only
+                    got = exact_leaf_wrappers(forest, gaps[i])
                 if exp:
                     dist["runs_with_formatting"] += 1
                 if got != exp:
